@@ -297,7 +297,71 @@ class Builder:
                 return name
         return None
 
+    def template_fns(self):
+        """Parser functions that exist only to be instantiated: free, private, with parameters besides the input, and used
+        nowhere but as the whole body of thin wrappers `fn list(input) { left_assoc(input, or, Token::Comma, ..) }`.  Their
+        own body is examined once per wrapper, with the arguments in place of the parameters (never in isolation)."""
+        if getattr(self, "_templates", None) is not None:
+            return self._templates
+        out = set()
+        for key, fn in self.facts.fns.items():
+            if fn.test or fn.impl is not None or fn.node.get("vis") == "pub":
+                continue
+            inp = self._input_name(fn)
+            if inp is None or len(fn.params) < 2 or not all(n_ for n_, _ in fn.params):
+                continue
+            uses, thin = 0, 0
+            for k2, f2 in self.facts.fns.items():
+                if f2.test or f2 is fn:
+                    continue
+                refs = F.find_all(f2.body, lambda n_: n_.get("k") == "path" and n_["segs"][-1] == fn.name, skip_pats=True)
+                if not refs:
+                    continue
+                uses += len(refs)
+                if self._thin_wrapper_of(f2) is fn and len(refs) == 1:
+                    thin += 1
+            if uses and uses == thin:
+                out.add(key)
+        self._templates = out
+        return out
+
+    def _thin_wrapper_of(self, fn):
+        """the callee when the whole body of `fn` is `callee(input, extra..)`, else None"""
+        inp = self._input_name(fn)
+        real = [s_ for s_ in fn.body["stmts"] if s_["k"] != "item"]
+        if inp is None or len(real) != 1 or real[0]["k"] != "expr" or real[0].get("semi"):
+            return None
+        e = real[0]["e"]
+        if not (e["k"] == "call" and e["f"].get("k") == "path" and len(e["args"]) >= 2):
+            return None
+        a0 = strip_refs(e["args"][0])
+        if not (a0.get("k") == "path" and a0["segs"] == [inp]):
+            return None
+        r = self._resolve_fn_path(e["f"], {"__module": fn.module, "__tsubst": {}})
+        callee = self.facts.fns.get(r[0]) if r else None
+        if callee is None or callee.impl is not None or callee is fn or self._input_name(callee) is None or len(callee.params) != len(e["args"]) or not all(n_ for n_, _ in callee.params):
+            return None
+        if [n_ for n_, _ in callee.params][0] != self._input_name(callee):
+            return None
+        return callee
+
     def _fn_body(self, fn, tsubst):
+        callee = self._thin_wrapper_of(fn) if fn.impl is None else None
+        if callee is not None and ("inst", fn.key) not in self.stack:
+            # a thin wrapper: the callee's body with the arguments in place of its parameters
+            from .normalise import _subst
+
+            call = [s_ for s_ in fn.body["stmts"] if s_["k"] != "item"][0]["e"]
+            sub = {n_: a_ for (n_, _), a_ in list(zip(callee.params, call["args"]))[1:]}
+            node = dict(callee.node, body=_subst(callee.body, sub), inputs=[callee.node["inputs"][0]], name=fn.name)
+            inst = F.Fn(fn.key, node, callee.file, callee.module, None, False)
+            self.stack.append(("inst", fn.key))
+            try:
+                ir = self._fn_body(inst, tsubst)
+            finally:
+                self.stack.pop()
+            ir["instance_of"] = callee.key
+            return ir
         inp = self._input_name(fn)
         env = {"__fn": fn, "__input": inp, "__tsubst": tsubst, "__module": fn.module}
         # extra parameters (e.g. `default: impl Fn(u64) -> TimeSpec`) are symbolic values
